@@ -209,7 +209,7 @@ def rustc_derive(cases, name):
 def derive_run(tier, seed):
     t0 = time.time()
     res = run_tlc("Derive.tla", "Derive.cfg", {}, workers=4, metaname="derive")
-    recs = [r[2] for r in tlc_records(res["out"]) if r[0] == "DERIVE"]
+    recs = [r[2] for r in tlc_records(res) if r[0] == "DERIVE"]
     rng = random.Random(seed + 19)
     if tier == "quick":
         # all single-feature deviations from a good baseline, plus a seeded sample of the product
@@ -336,7 +336,7 @@ def attr_run(tier, seed):
     res = run_tlc("Attr.tla", "Attr.cfg", {}, workers=4, metaname="attr")
     if not res["ok"]:
         raise ToolError("Attr.tla: the tokenizer model does not refine the abstract grammar:\n" + res["out"][-3000:])
-    cases = [r[2] for r in tlc_records(res["out"]) if r[0] == "ATTR"]
+    cases = [r[2] for r in tlc_records(res) if r[0] == "ATTR"]
     defs = []
     for k, c in enumerate(cases):
         d1 = render_attr_case(c, k)
@@ -429,7 +429,7 @@ def cli_run(tier, seed):
     res = run_tlc("Cli.tla", "Cli.cfg", {"MAXOPS": str(maxops)}, workers=4, metaname="cli")
     if not res["ok"]:
         raise ToolError("Cli.tla violated at specification level:\n" + res["out"][-2000:])
-    recs = tlc_records(res["out"])
+    recs = list(tlc_records(res))
     strips = [r[2] for r in recs if r[0] == "STRIP"]
     files = [r[2] for r in recs if r[0] == "FILES"]
     rng = random.Random(seed + 17)
@@ -573,7 +573,7 @@ def prio_run(tier, seed):
     res = run_tlc("Regex.tla", "Regex.cfg", {"DEPTH": str(depth)}, workers=8, metaname="regex")
     if not res["ok"]:
         raise ToolError("Regex.tla: LiteralNotBeaten violated at specification level:\n" + res["out"][-3000:])
-    asts = [r[2] for r in tlc_records(res["out"]) if r[0] == "AST"]
+    asts = [r[2] for r in tlc_records(res) if r[0] == "AST"]
     rng = random.Random(seed + 9)
     if tier == "quick" and len(asts) > 2500:
         small = [a for a in asts if len(json.dumps(a["r"])) < 60]
